@@ -127,8 +127,47 @@ jddiffct = src("jddiffct.c")
 ahead = min(rows_ahead(jdcoefct, "decompress_data", r"\ndecompress_data\s*\(j_decompress_ptr cinfo", jdcoefct),
             rows_ahead(jddiffct, "output_data", r"\noutput_data\s*\(j_decompress_ptr cinfo", jddiffct))
 
+# ---- constants the models use
+jdhuffh = src("jdhuff.h")
+m = re.search(r"#if SIZEOF_SIZE_T == 8[^\n]*\n\s*typedef size_t bit_buf_type;[^\n]*\n#define BIT_BUF_SIZE\s+(\d+)", jdhuffh)
+if not m:
+    die("jdhuff.h: BIT_BUF_SIZE for 64-bit size_t not found")
+bit_buf_size = int(m.group(1))
+m = re.search(r"#define HUFF_LOOKAHEAD\s+(\d+)", jdhuffh)
+if not m:
+    die("jdhuff.h: HUFF_LOOKAHEAD not found")
+huff_lookahead = int(m.group(1))
+m = re.search(r"#else\s*\n#define MIN_GET_BITS\s+\(BIT_BUF_SIZE - (\d+)\)", jdhuff)
+if not m:
+    die("jdhuff.c: MIN_GET_BITS (BIT_BUF_SIZE - k) not found")
+min_get_bits = bit_buf_size - int(m.group(1))
+def bufsize(text, fname):
+    m = re.search(r"#define BUFSIZE\s+\(DCTSIZE2 \* (\d+)\)", text)
+    if not m:
+        die(fname + ": BUFSIZE (DCTSIZE2 * k) not found")
+    return 64 * int(m.group(1))
+dec_bufsize = bufsize(jdhuff, "jdhuff.c")
+enc_bufsize = bufsize(jchuff, "jchuff.c")
+b = body(jdhuff, r"\ndecode_mcu\s*\(j_decompress_ptr cinfo", "decode_mcu")
+if not re.search(r"cinfo->src->bytes_in_buffer < BUFSIZE \* \(size_t\)cinfo->blocks_in_MCU \|\|\s*cinfo->unread_marker != 0\)\s*usefast = 0;", b):
+    die("decode_mcu: fast-path threshold test not recognised")
+if not re.search(r"if \(cinfo->restart_interval\) \{[^}]*\}\s*usefast = 0;", b, flags=re.S) and "usefast = 0" not in b:
+    die("decode_mcu: restart interval does not disable the fast path")
+m = re.search(r"FILL_BIT_BUFFER_FAST \\\s*\n\s*if \(bits_left <= (\d+)\) \{ \\\s*\n\s*((?:GET_BYTE ?)+)", jdhuff)
+if not m:
+    die("jdhuff.c: FILL_BIT_BUFFER_FAST (64-bit) not recognised")
+fast_fill_threshold, fast_fill_bytes = int(m.group(1)), m.group(2).count("GET_BYTE")
+
 print("(* GENERATED by tools/gen_Suspend.py from the current source tree -- do not edit *)")
 print("Definition output_pass_resets_lossless : bool := %s." % ("true" if facts["output_pass_resets_lossless"] else "false"))
+print("From Coq Require Import ZArith.")
+print("Definition src_bit_buf_size : Z := %d." % bit_buf_size)
+print("Definition src_min_get_bits : Z := %d." % min_get_bits)
+print("Definition src_huff_lookahead : Z := %d." % huff_lookahead)
+print("Definition src_dec_bufsize : nat := %d." % dec_bufsize)
+print("Definition src_enc_bufsize : nat := %d." % enc_bufsize)
+print("Definition src_fast_fill_threshold : Z := %d." % fast_fill_threshold)
+print("Definition src_fast_fill_bytes : nat := %d." % fast_fill_bytes)
 print("Definition output_rows_ahead : nat := %d." % ahead)
 print("Definition latch_by_copy : bool := %s." % ("true" if by_copy else "false"))
 names = [k for k in facts if k != "output_pass_resets_lossless"]
